@@ -71,7 +71,7 @@ def main(ck, tier, w):
     rng = random.Random(seed)
     rng.shuffle(forks)
     # M2: the run machine over the indexes (all key orders)
-    sub = forks[:250 if quick else 3000]
+    sub = forks[:250 if quick else 900]
     fpath = os.path.join(w.dir, 'forks.ndjson')
     with open(fpath, 'w') as f:
         for r in sub:
@@ -95,8 +95,8 @@ def main(ck, tier, w):
     def nontrivial(r):
         act = set(r['active'])
         return any(x['id'] not in act and x['data'] for x in r['recs'])
-    rsub = [r for r in forks if nontrivial(r)][:200 if quick else 4000] + [r for r in forks if not nontrivial(r)][:30 if quick else 300] \
-        + [r for r in deep if nontrivial(r)][:80 if quick else 1500]
+    rsub = [r for r in forks if nontrivial(r)][:200 if quick else 2500] + [r for r in forks if not nontrivial(r)][:30 if quick else 200] \
+        + [r for r in deep if nontrivial(r)][:80 if quick else 800]
     ck.cov['rule'] = ('every history of a node with <= %d non-genesis blocks (TLC, exhaustive: %d judged states, %d distinct '
                       'indexes); %d of them replayed on real data directories in two hash orders; non-trivial = index with at '
                       'least one competitor block that has data') % (4 if quick else 5, len(res.replay), len(forks), len(rsub))
@@ -172,7 +172,7 @@ def main(ck, tier, w):
     # ---- an index of realistic size: a node stopped during initial block download (a header-only block right above the tip with
     # hundreds of stored but unconnectable blocks on top of it) plus a long reorged-out branch - thousands of candidates, most of
     # them ranking above the real tip; repeated with several pool sizes (the choice of the tip is no race)
-    A, S0, S1, TOP = (400, 101, 300, 2200) if quick else (1500, 101, 1200, 5000)
+    A, S0, S1, TOP = (400, 101, 300, 2200) if quick else (1000, 101, 800, 3000)
     recs = [{'id': h, 'h': h, 'prev': h - 1, 'data': True, 'valid': 5, 'failed': False} for h in range(A + 1)]
     prev = S0 - 1
     for h in range(S0, S1 + 1):
@@ -194,7 +194,7 @@ def main(ck, tier, w):
         r = run.run_parser(cl, 'csvdump', dump=w.mk('out'), threads=[4, 8, 16, 3, 64, None][i % 6], timeout=300)
         shutil.rmtree(cl, ignore_errors=True)
         return i, r
-    for i, r in chains.pmap(brun, range(12 if quick else 40), 4):
+    for i, r in chains.pmap(brun, range(12 if quick else 24), 4):
         ck.evals()
         got = chains.csv_col(next((v for k, v in r.files.items() if k.startswith('blocks-')), b''), 0)
         ck.distinct(('big-ibd', i % 6))
